@@ -1,7 +1,7 @@
 (* Props/C11.v — property C11: combinational cycles settle on a fixed point or are reported. Statements only. *)
 From Coq Require Import ZArith List Bool Arith Lia Permutation.
 Import ListNotations.
-From PV Require Import Sched.Block Sched.Confluence Sched.SccIter Sched.GroupSched Sched.Accept Sched.GroupAccept.
+From PV Require Import Sched.Block Sched.Confluence Sched.SccIter Sched.GroupSched Sched.Accept Sched.GroupAccept Sched.FalseLoop.
 
 Section C11.
 Context {var val : Type}.
@@ -16,6 +16,20 @@ Theorem C11_scc_returns_fixed_point (group : list nat) (watched : var -> bool)
   (forall i j v, In i group -> In j group -> i <> j -> wr (B i) v = true -> rd (B j) v = true -> watched v = true) ->
   forall fuel e r, scc_iter B group stable fuel e = Some r -> forall i, In i group -> fixed_under B i r.
 Proof. intros Hst Hnd Hf Hd Hn Hs Hc. exact (scc_fixed_point B group watched stable Hst Hnd Hf Hd Hn Hs Hc). Qed.
+
+(* false loops: when the bit-level dependency relation of the group is in fact acyclic (E orders every feeding pair and
+   some order s of the same blocks is a linear extension of E), whatever the iteration returns IS the state one pass of the
+   acyclic reference order s computes — for every run order of the group, every bound, every start state *)
+Theorem C11_false_loop_equals_acyclic_reference (group : list nat) (watched : var -> bool)
+  (stable : env var val -> env var val -> bool) (E : nat -> nat -> bool) :
+  (forall e e', stable e e' = true -> forall v, watched v = true -> e v = e' v) ->
+  NoDup group -> (forall i, In i group -> frame (B i)) -> (forall i, In i group -> sdep (B i)) ->
+  (forall i, In i group -> nsl (B i)) -> single_writer B group ->
+  (forall i j v, In i group -> In j group -> i <> j -> wr (B i) v = true -> rd (B j) v = true -> watched v = true) ->
+  (forall i j, In i group -> In j group -> i <> j -> feeds B i j -> E i j = true) ->
+  forall s fuel e r, Permutation group s -> lin_ext E s ->
+  scc_iter B group stable fuel e = Some r -> eqe r (run_list B s e).
+Proof. intros Hst Hnd Hf Hd Hn Hs Hc He. exact (false_loop_equals_acyclic_reference B group watched stable Hst Hnd Hf Hd Hn Hs Hc E He). Qed.
 
 (* no stable round within the bound => error (None), never a normal-looking state *)
 Theorem C11_divergent_is_error (group : list nat) (stable : env var val -> env var val -> bool) fuel e :
@@ -59,3 +73,4 @@ Proof. vm_compute. repeat split. Qed.
 
 Print Assumptions C11_scc_returns_fixed_point. Print Assumptions C11_divergent_is_error. Print Assumptions C11_never_hangs.
 Print Assumptions C11_group_error_propagates. Print Assumptions C11_accepted_grouped_schedule_returns_fixed_point.
+Print Assumptions C11_false_loop_equals_acyclic_reference.
